@@ -336,19 +336,11 @@ creating a fixed-size array returned the zero array unvalidated); the model now 
 namespace Ucfg.C04
 open Ucfg Outcome
 
-def _root_.Ucfg.Ty.isStrct : Ty → Bool
-  | .strct _ => true
-  | _ => false
-
 /-- what a step of the unpacker returns for a slot of type `ty` from setting `v`: valid recursively (under any options),
 and - unless the setting is null, which stands for "zero value" - passing the validators declared for the slot -/
 def Good (std : Stdlib) (fo : FOpts) (ty : Ty) (v : Val) (r : GoVal) : Prop :=
   fits ty r = true ∧ (∀ ov, recValidate std ov ty [] r = none) ∧
   ((v.isNilPrim = false ∨ ty.isStrct = true) → runValidators std fo.validators r = none)
-
-def _root_.Ucfg.Ty.isMap : Ty → Bool
-  | .map _ => true
-  | _ => false
 
 /-- a value that has to be created (`reifyValue`): the same, except that a fresh map is built without the slot's
 validators (reifyValue passes none to reifyMap; a pointer to it passes them whatever the map holds) -/
